@@ -10,7 +10,7 @@ import (
 )
 
 func (c *Case) pipeOpts() PipeOpts {
-	return PipeOpts{SimOpts: SimOpts{Policy: c.Policy, Record: c.Record, MaxSteps: 3_000_000}, Cap: c.Cap}
+	return PipeOpts{SimOpts: SimOpts{Policy: c.Policy, Record: c.Record, MaxSteps: 3_000_000}, Cap: c.Cap, LateFeed: c.Late, Neighbour: c.Nbr}
 }
 
 // runInd executes an indicator case.
